@@ -178,7 +178,8 @@ def main(argv=None):
     for i, c in enumerate(contracts):
         if not c.bounded_only:
             tasks.append(("sym", i, a.tier, seed, None))
-            tasks.append(("diff", i, a.tier, seed, 60 if thorough else 12))
+            if c.differential:
+                tasks.append(("diff", i, a.tier, seed, 60 if thorough else 12))
         if not a.no_bounded:
             tasks.append(("bnd", i, a.tier, seed, 600 if thorough else 40))
         if thorough:
@@ -335,8 +336,9 @@ def main(argv=None):
         canary_report.append({"contract": c.name, "edit": [old, new], "expect": expect, "failed": failed,
                               "unsupported": r["unsupported"], "ok": bool(ok)})
         if not ok:
-            checker_errors.append("canary not %s: %s  %r -> %r (failed=%s unsupported=%s)" % (
-                "silent" if expect is None else "caught", c.name, old, new, failed, r["unsupported"]))
+            checker_errors.append("canary not %s: %s  %r -> %r (failed=%s unsupported=%s error=%s)" % (
+                "silent" if expect is None else "caught", c.name, old, new, failed, r["unsupported"],
+                (r["error"] or "")[:300]))
 
     # replay violations on the real code
     rdir = os.path.join(ROOT, "replays", prop)
